@@ -15,7 +15,14 @@ type Property struct {
 // Registry maps property ids to their rule sets.
 var Registry = map[string]*Property{}
 
-func register(p *Property) { Registry[p.ID] = p }
+func register(p *Property) {
+	run := p.Run
+	p.Run = func(c *core.Ctx) {
+		setAtomWrapperDecls(c) // per-program tables the syntax-level helpers consult
+		run(c)
+	}
+	Registry[p.ID] = p
+}
 
 // Related lists, per property, the properties whose rules the thorough tier
 // also runs: the ones whose checks caught seeded breakages of the property
